@@ -58,6 +58,15 @@ type FuncSpec struct {
 	AllocBound *Clause
 	Lemmas    []*Clause
 	Ensures2  []*Clause // relational (two-run) postconditions; names with suffix _2 denote the second run
+	Elems     []*ElemSpec // per-element facts of a returned channel (instantiated at each receive)
+}
+
+// ElemSpec: `elem <chanexpr> <var>: <body>` — for every index var in [0, chlen(chan)) body holds of
+// chelem(chan, var). Assumed at each receive from that channel, for the element received.
+type ElemSpec struct {
+	Chan   Expr
+	Var    string
+	Clause *Clause
 }
 
 type GhostVar struct {
@@ -300,6 +309,25 @@ func (fs *FuncSpec) addClause(t, file string, ln int) error {
 			return err
 		}
 		fs.Ensures2 = append(fs.Ensures2, c)
+	case "elem":
+		// elem result0 i: body
+		i := strings.Index(rest, ":")
+		if i < 0 {
+			return fmt.Errorf("elem CHAN VAR: body")
+		}
+		w := strings.Fields(rest[:i])
+		if len(w) != 2 {
+			return fmt.Errorf("elem CHAN VAR: body")
+		}
+		ce, err := parseSpecExpr(w[0])
+		if err != nil {
+			return err
+		}
+		c, err := mk(kind, strings.TrimSpace(rest[i+1:]))
+		if err != nil {
+			return err
+		}
+		fs.Elems = append(fs.Elems, &ElemSpec{Chan: ce, Var: w[1], Clause: c})
 	case "allocbound":
 		c, err := mk(kind, rest)
 		if err != nil {
